@@ -20,7 +20,7 @@ func init() {
 const valuePkg = core.ModPath + "/interpreter/value"
 
 func runC08(c *core.Ctx) {
-	c.Explanation = "Structural necessary conditions of crash-free, bounded simulation, decided on SSA of interpreter/** and tester: (sim.recursion) every recursion of the simulator is structurally descending on the syntax tree or dominated by a depth/visited guard (E9) — restart re-entry, subroutine calls, include expansion; (sim.arith) every integer division/remainder has a divisor that is a non-zero constant or is dominated by the non-zero edge of a test of the same value (same canonical access path; a test of a float does not discharge a division by its integer conversion), and every shift has a count that is unsigned, constant, masked, or dominated by a non-negative test of the same value; (sim.unwrap) every value.Unwrap[T](v) whose result is dereferenced is dominated by a test of v's type tag for T (if/switch/early-return forms, on the same v) or by a nil test of the result; built-ins: the generated Validate call dominates and the unwrapped type agrees with the declared argument type table, and every args[k] lies inside the validated arity; (sim.optnil) grammar-optional syntax fields are nil-tested before being dereferenced (E2). (sim.lock) every sync.Mutex Lock in interpreter/tester is released on every path to a return (deferred or direct Unlock; a defer registered just before the Lock counts) — a leaked lock blocks the next request forever; (sim.memo) a self-recursive graph walk that guards against cycles only with an on-path set (marked before, unmarked after the recursive calls) fills a memo on every completed call, otherwise it is exponential in the number of paths."
+	c.Explanation = "Structural necessary conditions of crash-free, bounded simulation, decided on SSA of interpreter/** and tester: (sim.recursion) every recursion of the simulator is structurally descending on the syntax tree or dominated by a depth/visited guard (E9) — restart re-entry, subroutine calls, include expansion; (sim.arith) every integer division/remainder has a divisor that is a non-zero constant or is dominated by the non-zero edge of a test of the same value (same canonical access path; a test of a float does not discharge a division by its integer conversion), and every shift has a count that is unsigned, constant, masked, or dominated by a non-negative test of the same value; (sim.unwrap) every value.Unwrap[T](v) whose result is dereferenced is dominated by a test of v's type tag for T (if/switch/early-return forms, on the same v) or by a nil test of the result; built-ins: the generated Validate call dominates and the unwrapped type agrees with the declared argument type table, and every args[k] lies inside the validated arity; (sim.optnil) grammar-optional syntax fields are nil-tested before being dereferenced (E2). (sim.lock) every sync.Mutex Lock in interpreter/tester is released on every path to a return (deferred or direct Unlock; a defer registered just before the Lock counts) — a leaked lock blocks the next request forever; (sim.memo) a self-recursive graph walk that guards against cycles only with an on-path set (marked before, unmarked after the recursive calls) fills a memo on every completed call, otherwise it is exponential in the number of paths. (sim.ctxnil) typestate of the per-request objects restart() resets to nil (backend request/response, object, response): forward must-dataflow of `established` (non-nil store, non-nil edge of a nil test) inside each function, entry sets as greatest fixpoint over the call sites in package interpreter, plus what a lifecycle scope establishes before it runs its subroutine for code that only runs under a Scope.Is guard; every dereference in the lifecycle functions and in the variable objects of each scope must be established."
 	c.NotCovered = []string{"panics inside third-party libraries and the standard library (regexp, net, time)", "allocation blow-up and regex backtracking time", "that saturation values are the right numbers", "index arithmetic other than args[k] (slices computed from runtime lengths)"}
 	prog := c.Prog
 	u := newAstUniverse(prog)
@@ -53,6 +53,9 @@ func runC08(c *core.Ctx) {
 
 	// ---- graph recursions guarded only by an on-path set are memoised
 	checkMemoisedGraphWalk(c, "sim.memo", ifuncs)
+
+	// ---- per-request objects are established before they are dereferenced
+	checkCtxNil(c)
 }
 
 // checkMemoisedGraphWalk: a self-recursive function (usually a closure) that protects itself against cycles with an
